@@ -97,6 +97,11 @@ def decide(R, check, prop, tier, kf, replay_dir):
             if check.native: verdict, txt = R.replay_native(check, used_inputs)
             confirmed = is_confirmed(verdict, txt, ob)
             ob = dict(ob); ob['trace_tail'] = ob2.get('trace_tail')
+        if (check.native and not confirmed and ob['class'] == 'ensures' and k is None
+                and (verdict.startswith('confirmed') or 'ALL_ENSURES_HOLD' in txt)):
+            # the real code ran to completion on the verifier's inputs and THIS postcondition held: the counterexample is an artefact of the
+            # verifier's memory / arithmetic model (e.g. pointer differences on symbolic objects), not a failing input
+            d.undecided.append((ob, 'the counterexample does not reproduce: on these inputs the real code satisfies this postcondition natively (verifier-model artefact, not a violation)')); continue
         rec = dict(property=prop, check=check.id, function=r.fn, obligation=ob.get('label') or ob['desc'], obligation_name=ob['name'],
                    obligation_class=ob['class'], mode=mode_used, inputs=used_inputs, native_verdict=verdict, native_output=txt[-2000:],
                    cbmc_trace_tail=ob.get('trace_tail'), cbmc_cmd=r.cmd, confirmed=confirmed)
